@@ -364,6 +364,16 @@ theorem reader_read_all_is_get (s : State K) (id : Nat) :
     (match rOpen s id with | .error e => .error e | .ok r => (rAll s.chunks r).1) = get s id :=
   rAll_fresh_eq_get s id
 
+/-- `BlobReader::verify`, at whatever position the reader stands (it rewinds), is `verify()` of its artifact as
+    long as the metadata record is the one it was opened on — in ANY state, damaged ones included -/
+theorem reader_verify_is_verify (s : State K) (id : Nat) (a : Art K) (r : Reader K)
+    (hf : find id s.arts = some a) (hc : r.chunks = a.chunks) (hk : r.checksum = a.checksum) :
+    (rVerify h s.chunks r).1 = verify h s id := by
+  rw [rVerify_eq, hc, hk]
+  unfold verify
+  simp only [hf]
+  cases readChunks s.chunks a.chunks <;> rfl
+
 /-- A reader opened on an artifact written as `d` (after any history), then used through `read(buf)` with ANY
     buffer sizes (0 included) while ANY operations that do not delete that artifact run between the reads
     (other artifacts sharing its content deleted, every collector, repair, new writes): no read fails, and the
@@ -610,7 +620,8 @@ example : let s := run hid cfg2 State.init [.put 0 [1, 2, 3, 4, 5], .put 0 [1, 2
       = .ok [1, 2, 3, 4, 5] := by decide
 example : let s := run hid cfg2 State.init [.put 0 [1, 2, 3]]
     let r : Reader (List Nat) := ⟨[[1, 2], [3]], 2, some [3], 1, 3, 3, [1, 2, 3]⟩
-    (rRead s.chunks r 4).1 = .ok [] := by decide
+    (rRead s.chunks r 4).1 = .ok [] ∧ (rVerify hid s.chunks r).1 = .ok true ∧
+    (rVerify hid (corrupt s [3] [4]).chunks r).1 = .ok false := by decide
 example : ∀ th ∈ [Th.writer 0 0 [[1], [1]], Th.writer 1 0 [[1]], Th.deleter 0, Th.toucher 0],
     ThOk hid (State.init : State (List Nat)) th := by
   intro th hth
